@@ -195,6 +195,42 @@ theorem staticcall_enters_static (run run' : Runner) (hrr : ∀ d fr g, run d tr
   unfold evmCall
   simp only [hc]
 
+/-! ## jump destinations -/
+
+/-- **validJumpdest_in_code.** A destination the model accepts lies strictly inside the code
+    (`dest < len(code)`, so `Code[dest]` exists — the destination equal to the code length is
+    refused), fits 64 bits, holds the JUMPDEST byte and is not inside PUSH data. -/
+theorem validJumpdest_in_code (fr : Frame) (dest : Word) (h : validJumpdest fr dest = true) :
+    dest < fr.code.size ∧ dest < 2 ^ 64 ∧ fr.code.getD dest 0 = 0x5b ∧ fr.isCode.getD dest false = true := by
+  unfold validJumpdest at h
+  simp only [Bool.and_eq_true, decide_eq_true_eq, beq_iff_eq] at h
+  exact ⟨h.1.1.2, h.1.1.1, h.1.2, h.2⟩
+
+/-- every other destination ends the frame with `ErrInvalidJump` — JUMP … -/
+theorem bad_jump_faults (cx : Ctx) (ro : Bool) (fr : Frame) (pos : Word) (g : Global) (cgt : Nat)
+    (h : validJumpdest fr pos = false) :
+    execOp cx ro .jump fr [pos] g cgt = .fault .invalidJump g := by
+  simp [execOp, h]
+
+/-- … and JUMPI with a non-zero condition -/
+theorem bad_jumpi_faults (cx : Ctx) (ro : Bool) (fr : Frame) (pos cond : Word) (g : Global) (cgt : Nat)
+    (hc : cond ≠ 0) (h : validJumpdest fr pos = false) :
+    execOp cx ro .jumpi fr [pos, cond] g cgt = .fault .invalidJump g := by
+  simp [execOp, h, hc]
+
+/-- a taken jump lands on a valid destination: the next `pc` is the destination -/
+theorem jump_lands_on_jumpdest (cx : Ctx) (ro : Bool) (fr : Frame) (pos : Word) (g : Global) (cgt : Nat) (u : Upd)
+    (h : execOp cx ro .jump fr [pos] g cgt = .upd u) : u.pc = pos ∧ validJumpdest fr pos = true := by
+  simp only [execOp] at h
+  split at h
+  · rename_i hv; cases h; exact ⟨rfl, hv⟩
+  · cases h
+
+/-- non-vacuity: in `PUSH1 4 JUMP INVALID JUMPDEST` destination 4 is valid, 5 (= code length) and 3 are not -/
+example : validJumpdest (mkFrame #[0x60, 0x04, 0x56, 0xfe, 0x5b] 0 0 0 0 #[]) 4 = true ∧
+    validJumpdest (mkFrame #[0x60, 0x04, 0x56, 0xfe, 0x5b] 0 0 0 0 #[]) 5 = false ∧
+    validJumpdest (mkFrame #[0x60, 0x04, 0x56, 0xfe, 0x5b] 0 0 0 0 #[]) 3 = false := by decide
+
 /-! ## faults are ordinary failed calls -/
 
 /-- the faults the property names (and the others the code can raise) -/
